@@ -392,6 +392,20 @@ def error_discipline(ctx, rule, bodies):
             if not ci:
                 continue
             name = ci.get("resolved") or ci["fn"]
+            # an Error used as an iterator yields the children of a bundle: `errors.extend(err.at(x))` records
+            # them without the location / span that was attached to the bundle
+            if re.search(r"Extend<darling_core::error::Error>>::extend$", name) and (ci.get("targs") or [None, None, None])[-1] == "darling_core::error::Error":
+                n += 1
+                ctx.ob(rule + ".discard", b.key, name, False, "a single darling::Error is handed to extend(): a bundle is split into its children and what was attached to it (location, span) is lost; push it instead")
+                continue
+            # a Result used as an iterator yields its Ok value and drops its Err: `flat_map(|x| fallible(x))`,
+            # `.flatten()` over Results, `result.into_iter()`
+            targs_ = " ".join(str(x) for x in (ci.get("targs") or []))
+            if re.search(r"Iterator(>)?::(flat_map|flatten)$|^<core::result::Result<.*> as core::iter::traits::collect::IntoIterator>::into_iter$|^core::result::Result::<T, E>::(iter|iter_mut)$", name) \
+                    and re.search(r"core::result::Result<[^{}]*darling_core::error::Error>", targs_ + " " + str(ci.get("self_ty") or "")):
+                n += 1
+                ctx.ob(rule + ".discard", b.key, name, False, "a Result<_, darling::Error> is used as an iterator here: its error is dropped silently (%s)" % targs_[:160])
+                continue
             if DISCARDING.match(name) and any(a == scan.ERR for a in ci.get("targs", [])[1:2]):
                 # `r.map_or_else(Error::write_errors, ..)` / `r.unwrap_or_else(handler_fn)`: the error is
                 # handed to a named function, not thrown away
